@@ -308,7 +308,23 @@ def misc(ctx, L):
     # `0 if index < 3 else 0xAA` over a running pad index
     idx_form = sym_forms and all(a[0] == "ife" and a[1][0] == "cmp" and a[1][1] == "<" and a[1][3] == ("c", 3) and a[1][2][0] == "iter"
                                  and a[2] == ("c", 0) and a[3] == ("c", 0xAA) for a in sym_forms)
-    if good or idx_form:
+    # arithmetic spelling: data.extend([0] * min(m, 3) + [0xAA] * (m - min(m, 3)))   (m = missing bytes)
+    arith = False
+    if not good and not idx_form:
+        from .common import affine_eq as _aeq
+        for r in runs_of(P, b, unroll=1):
+            for _, e in r.effects():
+                if e.kind == "call" and mname(e.value) == "extend" and e.value[2] and e.value[2][0][0] == "cat" and len(e.value[2][0][1]) == 2:
+                    z, a = e.value[2][0][1]
+                    if z[0] == "rep" and a[0] == "rep" and z[1] == ("list", (("c", 0),)) and a[1] == ("list", (("c", 0xAA),)):
+                        h = z[2]
+                        if h[0] == "call" and h[1] == ("glob", "min") and len(h[2]) == 2 and ("c", 3) in h[2]:
+                            m_ = h[2][0] if h[2][1] == ("c", 3) else h[2][1]
+                            if _aeq(a[2], mk_bin("-", m_, h)):
+                                arith = True
+    if arith:
+        ctx.holds("R-PAD", inst, "[0] * min(missing, 3) + [0xAA] * (missing - min(missing, 3))")
+    elif good or idx_form:
         ctx.holds("R-PAD", inst, str(sorted(len(s_) for s_ in seqs)) if good else "0 if pad index < 3 else 0xAA")
     elif sym_forms or not any(seqs):
         ctx.unknown("R-PAD", "padding construct not recognised (%s)" % ([pretty(a)[:50] for a in sym_forms[:2]] or "no pad bytes found"))
